@@ -41,7 +41,9 @@ CCancel(c, e) == [c EXCEPT !.subs[e.s].st = "cancelled"]
 CBatchCall(c, e) ==
   LET older == {m \in DOMAIN c.bs : c.bs[m].key = e.key /\ c.bs[m].delivered = {}}
       inflight == \E m \in DOMAIN c.bs : c.bs[m].key = e.key /\ ~c.bs[m].ret
-      bs2 == [m \in DOMAIN c.bs |-> IF m \in older THEN [c.bs[m] EXCEPT !.maybe = TRUE, !.supBy = @ \cup {e.n}] ELSE c.bs[m]]
+      \* a Batch issued once Close was called may be dropped silently: it makes the older value uncertain, but never surely superseded
+      bs2 == [m \in DOMAIN c.bs |-> IF m \in older THEN [c.bs[m] EXCEPT !.maybe = TRUE, !.supBy = IF c.closeCalled THEN @ ELSE @ \cup {e.n}]
+                                                   ELSE c.bs[m]]
       elig == {s \in DOMAIN c.subs : c.subs[s].st = "subscribed"}
   IN [c EXCEPT !.bs = (e.n :> [key |-> e.key, due |-> e.due, ret |-> FALSE, sup |-> FALSE, supBy |-> {},
                                maybe |-> inflight \/ c.closeCalled, elig |-> elig, delivered |-> {}]) @@ bs2]
